@@ -15,7 +15,7 @@ Definition apply_edit (e : fedit) (f : flags) : flags :=
 
 (* ------------------------------------------------------------------ syntax *)
 Inductive gkind := Cap | NonCap | Flagged (e : fedit).      (* "("  "(?:"  "(?i-s:" *)
-Inductive repk := Star | Plus | Quest.
+Inductive repk := Star | Plus | Quest | Count (lo : nat) (hi : option nat).      (* x*  x+  x?  x{lo,hi}  x{lo,} *)
 
 Inductive item :=
 | Lit (c : N)
@@ -38,7 +38,12 @@ Definition flag_chars (p : fop -> bool) (e : fedit) : str :=
   (if p (ei e) then [105] else []) ++ (if p (em e) then [109] else []) ++ (if p (es e) then [115] else []).
 Definition show_flags (e : fedit) : str :=
   flag_chars is_on e ++ match flag_chars is_off e with [] => [] | o => 45 :: o end.
-Definition repchar (k : repk) : N := match k with Star => 42 | Plus => 43 | Quest => 63 end.
+Definition dec_nat (n : nat) : str := itoa (N.of_nat n).
+Definition repsuffix (k : repk) : str :=
+  match k with
+  | Star => [42] | Plus => [43] | Quest => [63]
+  | Count lo hi => 123 :: dec_nat lo ++ 44 :: match hi with Some h => dec_nat h | None => [] end ++ [125]
+  end.
 Definition show_range (r : N * N) : str :=
   if fst r =? snd r then [fst r] else [fst r; 45; snd r].
 Definition gprefix (g : gkind) : str :=
@@ -51,7 +56,7 @@ Fixpoint show_item (x : item) : str :=
   | Class neg rs => 91 :: (if neg then [94] else []) ++ flat_map show_range rs ++ [93]
   | Bol => [94]
   | Eol => [36]
-  | Rep k y => show_item y ++ [repchar k]
+  | Rep k y => show_item y ++ repsuffix k
   | Group g body => 40 :: gprefix g ++ flat_map show_item body ++ [41]
   | SetFlags e => 40 :: 63 :: show_flags e ++ [41]
   | Bar => [124]
@@ -83,8 +88,16 @@ Fixpoint lits (fold : bool) (s : str) : rre :=
   | [] => REps
   | c :: r => RSeq (RLit fold c) (lits fold r)
   end.
+Fixpoint seq_n (n : nat) (a tail : rre) : rre :=
+  match n with O => tail | S m => RSeq a (seq_n m a tail) end.
 Definition rep (k : repk) (a : rre) : rre :=
-  match k with Star => RStar a | Plus => RSeq a (RStar a) | Quest => RAlt a REps end.
+  match k with
+  | Star => RStar a
+  | Plus => RSeq a (RStar a)
+  | Quest => RAlt a REps
+  | Count lo None => seq_n lo a (RStar a)                             (* at least lo *)
+  | Count lo (Some hi) => seq_n lo a (seq_n (hi - lo) (RAlt a REps) REps)   (* lo mandatory, hi - lo optional *)
+  end.
 
 (* outcome of parsing: a value, a parse error (MustCompile panics), or a text
    the model does not cover (only: an unterminated \Q followed later by "\E") *)
@@ -136,7 +149,7 @@ Fixpoint elab_item (f : flags) (x : item) (k : str) {struct x} : res rre :=
   | Class neg rs => Ok (RClass (fi f) neg rs)
   | Bol => Ok (RBol (fm f))
   | Eol => Ok (REol (fm f))
-  | Rep rk y => match elab_item f y (repchar rk :: k) with
+  | Rep rk y => match elab_item f y (repsuffix rk ++ k) with
                 | Ok a => Ok (rep rk a)
                 | Err => Err | Unmod => Unmod
                 end
